@@ -170,4 +170,28 @@ ParseBracketAtom(tok) ==
   IN IF okA /\ el \in ELEMENTS /\ okCl
      THEN [ok |-> TRUE, atom |-> MkAtom(el, IF iso = "" THEN "" ELSE StripZeros(iso), chi, h, chg, aro)]
      ELSE [ok |-> FALSE, atom |-> NoAtom]
+
+(***************************************************************************)
+(* Pre-v2 symbols and their documented modern equivalents (CHANGELOG v2):  *)
+(* [BranchL_M] -> [BranchL] / [=BranchL] / [#BranchL];  [Expl=RingL] ->    *)
+(* [=RingL], [Expl#RingL] -> [#RingL], [Expl/RingL] -> [//RingL],          *)
+(* [Expl\RingL] -> [\\RingL];  [<bond><atom>expl] -> the atom read as a SMILES *)
+(* bracket atom and re-spelled in the standard way.                        *)
+(***************************************************************************)
+L123 == {"1", "2", "3"}
+Modernize(sym) ==
+  IF Len(sym) = 11 /\ Slice(sym, 1, 7) = "[Branch" /\ Ch(sym, 8) \in L123 /\ Ch(sym, 9) = "_"
+     /\ Ch(sym, 10) \in L123 /\ Ch(sym, 11) = "]"
+  THEN "[" \o (CASE Ch(sym, 10) = "1" -> "" [] Ch(sym, 10) = "2" -> "=" [] OTHER -> "#")
+           \o "Branch" \o Ch(sym, 8) \o "]"
+  ELSE IF Len(sym) = 12 /\ Slice(sym, 1, 5) = "[Expl" /\ Ch(sym, 6) \in BondChars
+          /\ Slice(sym, 7, 10) = "Ring" /\ Ch(sym, 11) \in L123 /\ Ch(sym, 12) = "]"
+  THEN "[" \o (IF Ch(sym, 6) \in {"/", "\\"} THEN Ch(sym, 6) \o Ch(sym, 6) ELSE Ch(sym, 6))
+           \o "Ring" \o Ch(sym, 11) \o "]"
+  ELSE IF Len(sym) >= 6 /\ Ch(sym, 1) = "[" /\ Slice(sym, Len(sym) - 4, Len(sym)) = "expl]"
+  THEN LET b    == IF Ch(sym, 2) \in BondChars THEN Ch(sym, 2) ELSE ""
+           body == Slice(sym, 2 + Len(b), Len(sym) - 5)
+           pa   == ParseBracketAtom("[" \o body \o "]")
+       IN IF pa.ok /\ ~pa.atom.aro THEN "[" \o b \o SpellAtomBody(pa.atom) \o "]" ELSE sym
+  ELSE sym
 =====================================================================
